@@ -70,6 +70,46 @@ def check_sign(case, ctx):
         ctx.label("message_api")
 
 
+def history_strategy(tier):
+    """two key objects used for an interleaved sequence of sign / verify calls"""
+    op = st.tuples(st.sampled_from(["sign", "sign", "verify", "verify_wrong"]), st.integers(0, 1),
+                   st.integers(0, 2))
+    return st.fixed_dictionaries({
+        "secrets": st.tuples(gen.secrets(), gen.secrets()),
+        "zs": st.tuples(gen.digests(), gen.digests(), gen.digests()),
+        "ops": st.lists(op, min_size=3, max_size=7),
+    })
+
+
+def check_history(case, ctx):
+    ds, zs = case["secrets"], case["zs"]
+    privs = [PrivateKey(d) for d in ds]
+    points = [S256Point(*ec.mul(d)) for d in ds]
+    signed = set()
+    resign = False
+    for kind, ki, zi in case["ops"]:
+        d, z = ds[ki], zs[zi]
+        want = ec.ecdsa_sign(d, z)
+        if kind == "sign":
+            if (ki, zi) in signed or any(k != ki or zz != zi for k, zz in signed):
+                resign = True
+            signed.add((ki, zi))
+            sig = privs[ki].sign(z)
+            require((sig.r, sig.s) == want, "history/signature_depends_on_earlier_calls",
+                    f"ops={case['ops']!r}")
+        elif kind == "verify":
+            require(points[ki].verify(z, Signature(*want)) is True,
+                    "history/valid_signature_rejected_after_earlier_calls")
+        else:
+            other = ec.ecdsa_sign(ds[1 - ki], z)
+            if ds[0] == ds[1]:
+                continue
+            st_, ok = attempt(points[ki].verify, z, Signature(*other))
+            require(not (st_ == "ok" and ok), "history/invalid_signature_accepted_after_earlier_calls")
+    ctx.nontrivial(resign)
+    ctx.label("several_signatures_on_one_object" if resign else "single")
+
+
 # -------------------------------------------------------------- verify
 
 MUTS = [
@@ -288,6 +328,9 @@ SUBS = [
         budget={"quick": 1100, "thorough": 30000},
         required=["digest>=n", "digest==n", "secret_near_n", "message_api"],
         nontrivial_rule="every (secret, digest) pair"),
+    Sub("sign_verify_history", check_history, strategy=history_strategy, stateful=True,
+        budget={"quick": 200, "thorough": 8000}, required=["several_signatures_on_one_object"],
+        nontrivial_rule="history with more than one signature made by the same key object"),
     Sub("verify_exact", check_verify, strategy=verify_strategy,
         budget={"quick": 2200, "thorough": 60000},
         required=["mut:" + m for m in MUTS],
